@@ -113,6 +113,7 @@ class MachineModel:
 
         if any(
             (placement[e[0]], placement[e[1]]) not in self.coupling_graph
+            and (placement[e[1]], placement[e[0]]) not in self.coupling_graph
             for e in circuit.coupling_graph
         ):
             return False
